@@ -11,7 +11,7 @@ from harness import exc_sig
 
 PROPERTY_ID = "C17"
 LEVEL = "fault_enumeration"
-RULE = ("fault enumeration: for each of the 11 tabulation targets and the three writePotentials types, bounded models (2-3 pair potentials / 2 elements, "
+RULE = ("fault enumeration: for each of the 11 tabulation targets, the three writePotentials types and the five legacy EAM writer functions, bounded models (2-3 pair potentials / 2 elements, "
         "nr,nrho in {5,8}; larger grids and more seeds in the thorough tier) whose pair, density, embedding, dipole and quadrupole callables are "
         "failpoints; the write is run once per position k = 1..N_evals of the failing evaluation (EXHAUSTIVE over k) plus once without a fault. "
         "CLI: formulas that leave their domain at the first / an interior / the last row of each function kind (pymath.sqrt(K-r), pymath.log(r-K), "
@@ -35,7 +35,9 @@ LEVEL_NOTE = "Trusted: the failpoint wrapper forwards everything else unchanged 
 DESIGN_REF = "DESIGN.md section 4, C17"
 
 PAIR_T = ["LAMMPS", "DLPOLY", "GULP", "excel", "legacy:LAMMPS", "legacy:DL_POLY", "legacy:GULP"]
-EAM_T = ["setfl", "setfl_fs", "DL_POLY_EAM", "DL_POLY_EAM_fs", "excel_eam", "excel_eam_fs", "eam_adp"]
+EAM_T = ["setfl", "setfl_fs", "DL_POLY_EAM", "DL_POLY_EAM_fs", "excel_eam", "excel_eam_fs", "eam_adp",
+         "legacyeam:writeSetFL", "legacyeam:writeSetFLFinnisSinclair", "legacyeam:writeTABEAM", "legacyeam:writeTABEAMFinnisSinclair", "legacyeam:writeFuncFL"]
+LEGACY_EAM_TARGET = {"writeSetFL": "setfl", "writeSetFLFinnisSinclair": "setfl_fs", "writeTABEAM": "DL_POLY_EAM", "writeTABEAMFinnisSinclair": "DL_POLY_EAM_fs", "writeFuncFL": "setfl"}
 KSHARD = 40
 
 
@@ -72,6 +74,14 @@ def gen_cases(rng, tier):
           nr = 8 if nr < 12 else (nr // 4) * 4
         if t in PAIR_T:
           m = small_pair_model(rng, t.replace("legacy:", "").replace("DL_POLY", "DLPOLY") if t.startswith("legacy:") else t, nr)
+        elif t.startswith("legacyeam:"):
+          m = small_eam_model(rng, LEGACY_EAM_TARGET[t.split(":")[1]], nr, nrho)
+          if t.endswith("writeFuncFL"):
+            s0 = m["all_species"][0]
+            m["embed"] = [e for e in m["embed"] if e[0] == s0]
+            m["density"] = [e for e in m["density"] if e[0] == s0]
+            m["pair"] = [[s0, s0, {"k": "form", "name": "bornmayer", "p": [100.0, 0.5]}]]
+            m["all_species"] = [s0]
         else:
           m = small_eam_model(rng, t, nr, nrho)
         nmax = n_evals_upper(m)
@@ -99,6 +109,16 @@ def build(case, wrap):
 
     def write(fp):
       ap.writePotentials(typ, pots, float(m["tab"]["cutoff"]), int(m["tab"]["nr"]), fp)
+    return write, False
+  if t.startswith("legacyeam:"):
+    import atsim.potentials as ap
+    fn = getattr(ap, t.split(":")[1])
+    pots, eams = routes.eam_api_objects(m, wrap)[:2]
+    nr, nrho = int(m["tab"]["nr"]), int(m["tab"]["nrho"])
+    dr, drho = float(m["tab"]["cutoff"]) / (nr - 1), float(m["tab"]["cutoff_rho"]) / (nrho - 1)
+
+    def write(fp):
+      fn(nrho, drho, nr, dr, eams, pots, fp)
     return write, False
   if t in PAIR_T:
     tab = routes.pair_tab_api(m, wrap)
